@@ -522,7 +522,7 @@ void vf_search(const vf::Args& a)
 		                  c.add(vf::Op("hist", {std::get<0>(x), std::get<1>(x), std::get<2>(x), std::get<3>(x), std::get<0>(y), std::get<1>(y), std::get<2>(y), std::get<3>(y), std::get<4>(y), std::get<5>(y), std::get<2>(t).first, std::get<2>(t).first ? 1 : std::get<2>(t).second}));
 		                  return c;
 	                  });
-	vf::check_cases("history", a.n(25, 500), 100, g, [](const vf::Case& c) {
+	vf::check_cases("history", a.n(12, 200), 100, g, [](const vf::Case& c) {
 		auto& o = c.ops[0];
 		if (o.i(3) > 0 || (o.i(2) >= 2 && !(o.i(1) & 1)))
 			vf::stats().nt(vf::fnv(vf::serialize(c)));
